@@ -69,9 +69,29 @@ Deviation(e) ==
   THEN BitsDeviation(tt[e.t], e.op, e.a, e.b, e.out, e.r)
   ELSE "none"
 
+\* what the specification expects, for reports (only evaluated for rejected events); where the
+\* outcome is specified by a relation on the implementation's own witnesses it says so
+Expected(e) ==
+  LET T == tt[e.t]
+      val(x) == [out |-> "ok", r |-> x]
+      err(s) == [out |-> s, r |-> ZZero]
+  IN CASE e.op \in {"add", "sub", "mul", "neg"} ->
+            LET x == Exact(e.op, e.a, e.b)
+            IN IF T.word THEN val(ZWrap(FALSE, T.bits, x))
+               ELSE IF InRange(T, x) THEN val(x) ELSE err("overflow or underflow")
+       [] e.op \in {"satadd", "satsub", "satmul"} /\ T.scale = 0 -> val(Clamp(T, Exact(e.op, e.a, e.b)))
+       [] e.op \in {"divmod", "satdiv"} /\ ZIsZero(e.b) -> err("divzero")
+       [] e.op \in BitOps -> val(ZBitOpT(bt, e.op, T.signed, WidthFor(T, e.a, e.b), e.a, e.b))
+       [] e.op \in ShiftOps /\ e.b.n -> err("negshift")
+       [] e.op = "shl" /\ T.bits > 0 -> val(ShlBounded(T, e.a, e.b))
+       [] e.op = "shr" /\ (T.bits > 0 \/ FitsIn64(e.b)) ->
+            val(IF ZGe(e.b, ZFromInt(IF T.bits > 0 THEN T.bits ELSE MBitLen(e.a.m) + 1)) THEN SignFill(e.a)
+                ELSE ZFloorShr(e.a, ZToInt(e.b)))
+       [] OTHER -> err("(specified by a relation, see IntArith/Bits)")
+
 Report(e, v) ==
-  IF v = "bad" THEN PrintT(ToJson([k |-> e.k, v |-> v, cls |-> Class(e), dev |-> Deviation(e)]))
-  ELSE PrintT(ToJson([k |-> e.k, v |-> v, cls |-> "", dev |-> "none"]))
+  IF v = "bad" THEN PrintT(ToJson([k |-> e.k, v |-> v, cls |-> Class(e), dev |-> Deviation(e), exp |-> Expected(e)]))
+  ELSE PrintT(ToJson([k |-> e.k, v |-> v, cls |-> "", dev |-> "none", exp |-> [out |-> "", r |-> ZZero]]))
 
 Init == i = 0 /\ tt = FullTypeTable /\ bt = BitTables
 Next == i < Len(Trace) /\ i' = i + 1 /\ UNCHANGED <<tt, bt>>
